@@ -84,6 +84,12 @@ CHECKS = {
         note='One representative per character class (rotated by VERIF_SEED); longer rows are not covered.',
         technique='exhaustive enumeration of strings over character classes against a reference automaton',
         ref='2/C12', engine='E6'),
+    'C13': dict(
+        text='Doc-string document models: every content sequence of <= 2 (thorough 3) lines over 14 line forms (all Gherkin-looking lines, blank, whitespace-only, other delimiter, escaped delimiters, trailing blanks) x indentation relation {less, equal, more} '
+             'x both delimiters x delimiter indentation {0,2,5} x media type x host {background, scenario, outline, rule} x follower {EOF, step, scenario, tags+scenario, examples} x {LF, CRLF}; AST (content, delimiter, mediaType, follower structure, location) must equal the model.',
+        note='Quick crosses media/host/follower/line-end as a covering set for 2-line contents; longer contents are not covered.',
+        technique='bounded exhaustive enumeration of document models rendered to text and replayed through the real parser',
+        ref='2/C13', engine='E5'),
     'C14': dict(
         text='Every document witness-prefix.w (one prefix per state of the generated machine and matcher mode, w over a 28-line alphabet, |w|<=K, '
              'with/without final newline) and error-cap families in both error modes and through the stream, compared error by error with a '
@@ -97,6 +103,26 @@ CHECKS = {
         note='Line-level only, as the property states; mixed separator/data rows are unspecified and skipped.',
         technique='complete sweep of a finite configuration space against a reference matcher',
         ref='2/C19', engine='E8'),
+    'C15': dict(
+        text='Histories: every ordered sequence of 2..3 (thorough 4) documents from a pool of 14 state-perturbing documents through one Parser/TokenMatcher/Compiler in 5 configurations, each result compared with fresh instances; '
+             'schedules: a controlled scheduler gates TokenScanner.read so that ALL interleavings of the read points of two 5-line parses and three short parses are executed, results compared with solo results, failing schedules must reproduce; '
+             'plus compile-input-unchanged, compile repeatability, DIALECTS unchanged, and cross-process determinism under different hash seeds.',
+        note='Pre-emption only at line boundaries (as the property states); pool and history length bounded; three-way interleavings use 2-line (quick) / 3-line (thorough) documents.',
+        technique='exhaustive enumeration of operation histories and of all thread interleavings at read points under a controlled scheduler',
+        ref='2/C15', engine='E7'),
+    'C16': dict(
+        text='Metamorphic relation applied at every admissible position: for each base document (52 corpus files, model documents in 5 layouts, noisy/rejected documents from every control state, all structure documents of <= 4/6 lines) '
+             'each layout transformation (CRLF, file instead of string, trailing blanks, extra indentation incl. doc-string blocks, blank line at every admissible gap, comment before every structural line, final newline) at each line/gap and at all together; '
+             'results compared after the exact position mapping the relation allows.',
+        note='Admissible positions are decided by the reference machine; documents with lone carriage returns are excluded as the property states.',
+        technique='bounded exhaustive enumeration of (document, transformation, position) triples with a relational oracle',
+        ref='2/C16', engine='E4'),
+    'C17': dict(
+        text='All sequences of <= 3 (thorough 4) sources from a pool of 20 x all 8 print-option combinations through one GherkinEvents: envelope kinds/order/option gating, uri, data unchanged, media type, '
+             'shape validation of every envelope (validator self-tested on the corpus ndjson), per-source envelopes equal solo envelopes with ids shifted; scripts/generate_events.py on all corpus files against the expected ndjson.',
+        note='Pool and sequence length bounded.',
+        technique='exhaustive enumeration of source sequences and configurations against solo runs and a message-shape model',
+        ref='2/C17', engine='E9'),
     'C18': dict(
         text='Token delivery oracle (each physical line exactly once, in order, with its number, then one EOF; delivered xor reported-unexpected for rejected documents) '
              'on every kind sequence of length <= L through the real parse loop, on all look-ahead words TagLine r1 t1 r2 t2 from each of the states with a look-ahead '
@@ -145,6 +171,10 @@ def main():
              'kind_free_text': 'character-level enumerators over class alphabets against explicit reference automata'},
             {'name': 'E8', 'path': 'mc/checks/c05.py mc/checks/c19.py', 'serves_properties': ['C05', 'C19'],
              'kind_free_text': 'complete sweeps of finite configuration spaces (dialect x keyword x role x layout)'},
+            {'name': 'E7', 'path': 'mc/checks/c15.py', 'serves_properties': ['C15', 'C11'],
+             'kind_free_text': 'history enumerator and baton scheduler that gates TokenScanner.read to enumerate all interleavings'},
+            {'name': 'E9', 'path': 'mc/msgshape.py', 'serves_properties': ['C17'],
+             'kind_free_text': 'hand-written Cucumber Messages shape validator, self-tested on the corpus'},
             {'name': 'E4', 'path': 'mc/ref.py mc/impl.py mc/docspace.py', 'serves_properties': ['C01', 'C03', 'C04', 'C14', 'C16', 'C18'],
              'kind_free_text': 'independent reference lexer/machine/builder/compiler (self-tested on the acceptance corpus) and bounded document spaces from every control state'},
         ],
